@@ -17,6 +17,13 @@ def run(db, rep, tier):
     for k in sorted(data['ops'])[:400]:
         rep.fn(k)
     ownrules.report(rep, data, ('B.inv', 'B.inv.empty', 'B.post'), False, 'B.inv')
+    # "storage supplied by the user is never freed, resized or silently replaced": an operation that would have to
+    # resize a vector bound to user storage must fail; completing normally means the binding was dropped or replaced
+    seen = set()
+    for (rule, site, where, expected, found, function, exc, af) in data['findings']:
+        if rule == 'B.mustthrow' and 'external storage' in expected and not af and (rule, site) not in seen:
+            seen.add((rule, site))
+            rep.fail('B.post', site, where, 'a vector bound to user storage keeps exactly that buffer: ' + expected, found, function)
     # movable flags only for rvalue operands
     n = 0
     for label, (ok, detail, where, fn) in sorted(data['steal'].items()):
